@@ -31,7 +31,7 @@ ASSUMPTIONS = [
     "default native pole (LONPOLE=180, theta0=90, i.e. zenithal projections); other theta0 values are not reachable from a FITS header through this class and are outside the claim",
     "reference points exactly at a celestial pole (cos(CRVAL2) = 0) are outside the claim (the longitude is undefined there); arbitrarily close to the pole is inside",
     "sky positions 90 degrees or more from the reference point have no gnomonic image: outside the claim for the inverse chain",
-    "SIP: orders 2 (quick) and 3 (thorough), coefficients A_p_q / B_p_q with 2 <= p+q <= order; TPV: the 10+10 polynomial terms the class supports (the radial PV?_3 term is not supported by the class and is outside the claim)",
+    "SIP: orders 2 (quick) and 3 (thorough), coefficients A_p_q / B_p_q with 2 <= p+q <= order, and (configuration SIPlow) also the constant and linear terms some writers emit; TPV: the 10+10 polynomial terms the class supports (the radial PV?_3 term is not supported by the class and is outside the claim)",
 ]
 BOUNDS = {"quick": {"arrays": "length 1", "sip_order": 2, "wrap_ra_diff": "differences within [-900, 900] degrees"},
           "thorough": {"arrays": "length 1..2", "sip_order": 3, "wrap_ra_diff": "differences within [-1260, 1260] degrees"}}
@@ -47,7 +47,8 @@ def configs(tier):
            ("deproj", "scalar"), ("deproj", "array"),
            ("chain", "TAN", "scalar"), ("chain", "TAN", "array"),
            ("chain", "TPV", "scalar"), ("chain", "TPV", "array"), ("chain", "TPVsparse", "scalar"), ("chain", "TANPV", "scalar"),
-           ("chain", "SIP", "scalar"), ("chain", "SIP", "array"), ("chain", "SIPnoinv", "scalar"),
+           ("chain", "SIP", "scalar"), ("chain", "SIP", "array"), ("chain", "SIPnoinv", "scalar"), ("chain", "SIPlow", "scalar"),
+           ("two_objects", "TPV", "TAN"), ("two_objects", "SIP", "TPV"), ("two_objects", "TAN", "SIP"),
            ("refpix", "TAN"), ("refpix", "SIP"),
            ("sph2image", "scalar"), ("sph2image", "array"),
            ("cdinv",),
@@ -154,7 +155,7 @@ def _header(cx, proj, concrete_cd=False, lonpole=False):
         H.cd = [cx.real("cd1_1"), cx.real("cd1_2"), cx.real("cd2_1"), cx.real("cd2_2")]
         cx.assume(H.cd[0] * H.cd[3] - H.cd[1] * H.cd[2] != 0)
     H.crpix = [cx.real("crpix1"), cx.real("crpix2")]
-    kind = {"TAN": "TAN", "TPV": "TPV", "TPVsparse": "TPV", "TPVfew": "TPV", "TANPV": "TAN", "SIP": "TAN-SIP", "SIPnoinv": "TAN-SIP", "SIP3": "TAN-SIP"}[proj]
+    kind = {"TAN": "TAN", "TPV": "TPV", "TPVsparse": "TPV", "TPVfew": "TPV", "SIPlow": "TAN-SIP", "TANPV": "TAN", "SIP": "TAN-SIP", "SIPnoinv": "TAN-SIP", "SIP3": "TAN-SIP"}[proj]
     h = {"naxis1": 2048, "naxis2": 4096, "ctype1": "RA---" + kind, "ctype2": "DEC--" + kind,
          "crpix1": H.crpix[0], "crpix2": H.crpix[1], "crval1": H.ra0, "crval2": H.dec0,
          "cd1_1": H.cd[0], "cd1_2": H.cd[1], "cd2_1": H.cd[2], "cd2_2": H.cd[3]}
@@ -185,10 +186,11 @@ def _header(cx, proj, concrete_cd=False, lonpole=False):
         H.order = order
         h["a_order"] = order
         h["b_order"] = order
+        lowest = 0 if proj == "SIPlow" else 2
         for nm in ("a", "b"):
             for p in range(order + 1):
                 for q in range(order + 1):
-                    if 2 <= p + q <= order:
+                    if lowest <= p + q <= order:
                         v = cx.real("%s_%d_%d" % (nm, p, q))
                         cx.assume(v != 0)
                         H.sip[(nm, p, q)] = v
@@ -628,6 +630,39 @@ def _harness(cx, cfg):
         cx.check_eq("stage contracts compose: east component of the deprojected vector is xi", dot(e_e, p), U * pi180)
         cx.check_eq("stage contracts compose: north component of the deprojected vector is eta", dot(e_n, p), V * pi180)
         return
+    if what == "two_objects":
+        # objects are independent: constructing (and using) a second WCS changes nothing in the first
+        w, _ = _module(cx)
+        pa, pb = cfg[1], cfg[2]
+        names = {"TPV": "TPVfew", "SIP": "SIPnoinv", "TAN": "TAN"}
+        HA = _header(cx, names[pa], concrete_cd=True)
+        A = w.WCS(HA.h)
+        sA = _snap(A)
+        dA = A.distort
+        hb = dict(HA.h)
+        for k in list(hb):
+            if k.startswith(("pv", "a_", "b_", "ap_", "bp_")):
+                del hb[k]
+        kindb = {"TPV": "TPV", "SIP": "TAN-SIP", "TAN": "TAN"}[pb]
+        hb["ctype1"], hb["ctype2"] = "RA---" + kindb, "DEC--" + kindb
+        if pb == "TPV":
+            hb.update(pv1_1=cx.real("q1_1"), pv2_1=cx.real("q2_1"))
+        elif pb == "SIP":
+            hb.update(a_order=2, b_order=2, a_2_0=cx.real("qa_2_0"), b_0_2=cx.real("qb_0_2"))
+        B = w.WCS(hb)
+        cx.check("two WCS objects do not share their distortion record", B.distort is not dA and A.distort is dA)
+        d = _diff_snap(sA, _snap(A))
+        cx.check("constructing a second WCS leaves the first one's state unchanged", not d, detail=str(d))
+        want = {"TPV": "scamp", "SIP": "sip", "TAN": "none"}
+        cx.check("each object has the distortion model of its own header", A.distort["name"] == want[pa] and B.distort["name"] == want[pb])
+        _stub_fit(cx, B, HA)
+        B.sph2image = lambda lon, lat: (cx.real("Ub") * 1, cx.real("Vb") * 1)
+        if B.distort["name"] != "none":
+            B.sky2image(trig.angle("lonb", 0, 360), trig.angle("latb", -90, 90), find=False)
+        d = _diff_snap(sA, _snap(A))
+        cx.check("the lazy inverse fit of one object leaves the other's state unchanged", not d, detail=str(d))
+        cx.assume_obligations()
+        return
     if what in ("pure", "lazy", "find", "jacobian", "wrap_ra_diff"):
         return _h_state(cx, cfg)
     raise AssertionError(cfg)
@@ -960,6 +995,11 @@ def _concrete_headers():
         h = dict(base, ctype1="RA---TAN-SIP", ctype2="DEC--TAN-SIP", crval1=ra0, crval2=dec0, **cdm(0.5, 12.0, -1))
         h.update(sip)
         out.append(("SIP:" + nm, h))
+    # constant and linear SIP terms, as some writers emit them
+    h = dict(base, ctype1="RA---TAN-SIP", ctype2="DEC--TAN-SIP", crval1=95.25, crval2=31.5, **cdm(0.4, -20.0, 1))
+    h.update(sip)
+    h.update({"a_0_0": 0.31, "a_1_0": 1.2e-4, "a_0_1": -2.3e-4, "b_0_0": -0.17, "b_1_0": 3.1e-4, "b_0_1": -0.8e-4})
+    out.append(("SIP:low-order", h))
     return out
 
 
@@ -1146,6 +1186,24 @@ def replay(cand):
                             return bad("range:longitude", "CRVAL=(%r, %r), CD=%r: image2sky(%r, %r) longitude = %r (array) / %r (scalar), not in [0, 360); kernel: rotated longitude %r wraps to %r"
                                        % (crval1, crval2, cd, float(x[i]), float(y[i]), float(lon[i]), ls, v, float(lo)))
         return {"reproduced": False, "what": "kernel misbehaves for a rotated longitude of %r but no header of the search family realises it" % v, "key": None}
+    if what == "two_objects":
+        # several objects alive together, used interleaved: each must behave as if it were alone
+        hs = dict(_concrete_headers())
+        seq = ["TPV:mid", "TAN:mid", "SIP:mid", "TAN:equator", "TPV:npole", "SIP:low-order"]
+        objs = [(nm, hs[nm], w.WCS(dict(hs[nm]))) for nm in seq]
+        for rnd in range(2):
+            for nm, h, W in objs + objs[::-1]:
+                for (x, y) in ((1.0, 1.0), (700.5, 1800.25), (2048.0, 4096.0)):
+                    lo, la = W.image2sky(x, y)
+                    rl, rb, rp = _ref_image2sky(h, x, y, True)
+                    sp = _sep_deg(float(lo), float(la), rp)
+                    if not sp <= 1e-9:
+                        return bad("objects-share-state", "%s object used next to other WCS objects: image2sky(%r, %r) is %.3g deg from the FITS reference of its own header" % (nm, x, y, sp))
+                    if nm.split(":")[0] != "TAN" and rnd == 1:
+                        xb, yb = W.sky2image(float(lo), float(la))
+                        if not (abs(float(xb) - x) <= 1e-6 and abs(float(yb) - y) <= 1e-6):
+                            return bad("objects-share-state", "%s object used next to other WCS objects: sky2image(image2sky(%r, %r)) = (%r, %r)" % (nm, x, y, float(xb), float(yb)))
+        return no
     heads = list(_concrete_headers())
     mh = _model_header(cfg, mdl)
     if mh is not None:
